@@ -251,6 +251,49 @@ def extract_scoring_facts(nbl_src: str, dp_src: str):
     return f
 
 
+def extract_blaster_sites(nbl_src: str):
+    """Every `NBlaster(...)` construction in nblast_funcs.py: (enclosing function, ordinal inside it, sorted
+    (keyword, forwarded expression) pairs); plus the constructor's parameters and which keys of `smat_kwargs` it reads."""
+    tree = ast.parse(nbl_src)
+    sites = []
+    for fn in tree.body:
+        if not isinstance(fn, ast.FunctionDef):
+            continue
+        k = 0
+        calls = [n for n in ast.walk(fn) if isinstance(n, ast.Call) and isinstance(n.func, ast.Name) and n.func.id == 'NBlaster']
+        for c in sorted(calls, key=lambda n: (n.lineno, n.col_offset)):
+            if c.args or any(kw.arg is None for kw in c.keywords):
+                raise ValueError(f'{fn.name}: NBlaster(...) called with positional / ** arguments')
+            sites.append((fn.name, k, sorted((kw.arg, ast.unparse(kw.value)) for kw in c.keywords)))
+            k += 1
+    # every `<blaster>.append(<neurons>[<i>], <self hits>[<j>])`: which list, which index
+    appends = []
+    for fn in tree.body:
+        if not isinstance(fn, ast.FunctionDef):
+            continue
+        for n in ast.walk(fn):
+            if isinstance(n, ast.Call) and isinstance(n.func, ast.Attribute) and n.func.attr == 'append' and len(n.args) == 2 \
+                    and all(isinstance(a, ast.Subscript) and isinstance(a.value, ast.Name) for a in n.args):
+                a, b = n.args
+                appends.append((fn.name, a.value.id, ast.unparse(a.slice), b.value.id, ast.unparse(b.slice), n.lineno))
+    appends = [x[:5] for x in sorted(appends, key=lambda x: x[5])]
+    cls = find_class(tree, 'NBlaster')
+    init = find_method(cls, '__init__')
+    params = [a.arg for a in init.args.args if a.arg != 'self']
+    keys, default = [], None
+    for n in ast.walk(init):
+        if isinstance(n, ast.Call) and isinstance(n.func, ast.Attribute) and n.func.attr == 'get' \
+                and isinstance(n.func.value, ast.Name) and n.func.value.id == 'smat_kwargs' and n.args \
+                and isinstance(n.args[0], ast.Constant):
+            keys.append(str(n.args[0].value))
+            if len(n.args) > 1 and isinstance(n.args[1], ast.Constant) and isinstance(n.args[1].value, int):
+                default = n.args[1].value
+        if isinstance(n, ast.Subscript) and isinstance(n.value, ast.Name) and n.value.id == 'smat_kwargs' \
+                and isinstance(n.slice, ast.Constant):
+            keys.append(str(n.slice.value))
+    return sites, params, sorted(set(keys)), default, appends
+
+
 def generate(repo: Path):
     repo = Path(repo)
     nbl = repo / 'navis' / 'nbl'
@@ -258,6 +301,7 @@ def generate(repo: Path):
     t2 = read_table(nbl / 'score_mats' / 'smat_alpha_fcwb.csv')
     side_lean, side_txt, off, clip = extract_digitizer((nbl / 'smat.py').read_text())
     allowed = extract_allowed_scores((nbl / 'nblast_funcs.py').read_text())
+    sites, bparams, skeys, sdefault, appends = extract_blaster_sites((nbl / 'nblast_funcs.py').read_text())
     sf = extract_scoring_facts((nbl / 'nblast_funcs.py').read_text(), (repo / 'navis' / 'core' / 'dotprop.py').read_text())
     b = lambda x: 'true' if x else 'false'
     out = []
@@ -282,6 +326,20 @@ def generate(repo: Path):
         camel = ''.join(w.capitalize() if i else w for i, w in enumerate(k.split('_')))
         out.append(f'def {camel} : Bool := {b(sf[k])}')
     out.append('')
+    q = lambda x: '"' + str(x).replace('\\', '\\\\').replace('"', '\\"') + '"'
+    out.append('/-- every `NBlaster(...)` construction site of nblast_funcs.py: (function, ordinal, sorted (keyword, forwarded expression)) -/')
+    out.append('def blasterSites : List (String × Nat × List (String × String)) := [')
+    out.append(',\n'.join(f'  ({q(f)}, {k}, [' + ', '.join(f'({q(a)}, {q(v)})' for a, v in kws) + '])' for f, k, kws in sites))
+    out.append('  ]\n')
+    out.append('/-- every `this.append(<neurons>[i], <self hits>[j])`: (function, neuron list, i, self-hit list, j) -/')
+    out.append('def appendSites : List (String × String × String × String × String) := [')
+    out.append(',\n'.join(f'  ({q(a)}, {q(b)}, {q(c)}, {q(d)}, {q(e)})' for a, b, c, d, e in appends))
+    out.append('  ]\n')
+    out.append('/-- parameters of `NBlaster.__init__` -/')
+    out.append('def blasterParams : List String := [' + ', '.join(q(x) for x in bparams) + ']\n')
+    out.append('/-- keys of `smat_kwargs` the constructor reads, and the default of `sigma_scoring` -/')
+    out.append('def smatKwargsKeys : List String := [' + ', '.join(q(x) for x in skeys) + ']')
+    out.append(f'def sigmaScoringDefault : Option Int := {"none" if sdefault is None else f"some {sdefault}"}\n')
     out.append(lean_intervals('fcwbRows', t1[0]))
     out.append(lean_intervals('fcwbCols', t1[1]))
     out.append(lean_cells('fcwbCells', t1[2]))
@@ -299,5 +357,7 @@ def generate(repo: Path):
         'fcwb_shape': [len(t1[0]), len(t1[1])], 'fcwb_alpha_shape': [len(t2[0]), len(t2[1])],
         'fcwb_right_closed': [all(r for _, _, r in t1[0]), all(r for _, _, r in t1[1])],
         'scoring_facts': sf,
+        'blaster_sites': [[f, k, kws] for f, k, kws in sites], 'blaster_params': bparams, 'smat_kwargs_keys': skeys,
+        'append_sites': [list(x) for x in appends],
     }
     return 'Smat.lean', '\n'.join(out), meta
